@@ -179,6 +179,13 @@ func ParseCoff(b []byte) *CoffFile {
 			}
 		} else {
 			s.Name = cstr(rec[0:8])
+			// an inline name shorter than eight bytes is padded with NUL bytes up to the end of the field
+			for k := len(s.Name); k < 8; k++ {
+				if rec[k] != 0 {
+					bad("symbol %d: inline name field % x is not NUL-padded after %q", i, rec[0:8], s.Name)
+					break
+				}
+			}
 		}
 		if int(s.Section) > int(f.NSec) || s.Section < -2 {
 			bad("symbol %d (%s): section number %d out of range", i, s.Name, s.Section)
